@@ -4,6 +4,7 @@ import Driver.C06
 import Driver.C03
 import Driver.C18
 import Driver.C20
+import Driver.C07
 /-!
 # Line-protocol driver
 
@@ -20,6 +21,7 @@ def dispatch (inp obs : List String) : Verdict :=
   | some "C03" => Driver.C03.run inp obs
   | some "C18" | some "C18L" => Driver.C18.run inp obs
   | some "C20" => Driver.C20.run inp obs
+  | some "C07" => Driver.C07.run inp obs
   | _ => { agree := false, model := "unknown-model" }
 
 partial def loop (h : IO.FS.Stream) (out : IO.FS.Stream) : IO Unit := do
